@@ -41,6 +41,8 @@ CONSTANTS
   MaxConns, MaxMoves, MaxCancels, MaxCuts, MaxRefresh, MaxExpire, MaxCloseIdle,
   AnyConnId,    \* FALSE: connections are numbered in the order they are opened (model checking); TRUE: any free number
                 \* (journals number them in dial order, which may differ from the order of the decisions to connect)
+  AtomicRelease,\* TRUE: resolving the caller and releasing the connection are one step (smaller state space); FALSE: two
+                \* steps, as in conn.run (the caller may return, and route its next request, before releaseConn)
   Hist,         \* TRUE: keep every applied snapshot and dead connections (safety); FALSE: liveness configs
   Bug
 
@@ -136,7 +138,9 @@ Routed(snap, l, prev) ==
     [] OTHER -> Designated(snap, l, prev)
 Dest(r, i) ==
   LET ls == rq[r].legs IN
-  Routed(SnapOf(rq[r].snap), ls[i], IF i > 1 THEN ls[i - 1] ELSE ls[i])
+  \* (seeded defect: every sub-request of a split call carries the whole request, which is routed by its first partition)
+  IF Bug = "splitWholeToFirst" /\ rq[r].d.cls = "split" THEN Designated(SnapOf(rq[r].snap), ls[1], ls[1])
+  ELSE Routed(SnapOf(rq[r].snap), ls[i], IF i > 1 THEN ls[i - 1] ELSE ls[i])
 
 Handed(l) == l.st \in {"sent", "ok", "fail"}
 \* sendRequest is called leg after leg by the calling goroutine (each call returns once the request is handed to a
@@ -197,8 +201,13 @@ Begin(r, d) == d \in Menu[r] /\ BeginWith(r, d)
 \* <-p.ready; grabState(): the snapshot the whole round trip is routed with
 GrabState(r) ==
   /\ rq[r].pc = "wait" /\ pool.ready
+  \* no metadata yet (the first load failed): a Metadata request is answered with that error; any other request is
+  \* routed with an empty layout (snapshot 0): nothing has a leader or a controller, but requests for "any broker"
+  \* (FindCoordinator) still go out on the control group
   /\ IF Latest = pool.base
-       THEN rq' = [rq EXCEPT ![r].pc = "done", ![r].result = [kind |-> "error", why |-> "nometadata"]]
+       THEN IF rq[r].d.cls = "cache"
+              THEN rq' = [rq EXCEPT ![r].pc = "done", ![r].result = [kind |-> "error", why |-> "nometadata"]]
+              ELSE rq' = [rq EXCEPT ![r].pc = "run", ![r].snap = 0]
        ELSE rq' = [rq EXCEPT ![r].pc = "run", ![r].snap = IF Bug = "staleCache" THEN pool.base + 1 ELSE Latest]
   /\ UNCHANGED <<cl, moves, snaps, pool, disc, conns, sent, served, budget>>
 
@@ -335,7 +344,8 @@ Resolve(r, i, st, resp) ==
 
 TimedOut(r) == r # 0 /\ rq[r].cancelled = "deadline"
 
-\* the response was read completely: resolve the promise, then releaseConn (or close when the group is closed)
+\* the response was read completely: conn.run resolves the promise (the caller may return at once) and only then
+\* calls releaseConn: until Release the connection is in nobody's hands
 ExchangeOK(c) ==
   /\ conns[c].st = "busy" /\ conns[c].wire # << >> /\ ~conns[c].cut
   /\ LET r == conns[c].cur[1]  i == conns[c].cur[2]  resp == Head(conns[c].wire)  mine == resp.for = <<r, i>> IN
@@ -343,15 +353,30 @@ ExchangeOK(c) ==
        /\ IF conns[c].cur = <<0, 1>> /\ disc.pc = "sent"
             THEN disc' = [disc EXCEPT !.pc = "got", !.meta = IF mine THEN resp.meta ELSE NoSnap, !.ok = mine]
             ELSE UNCHANGED disc
-       \* releaseConn refuses a connection whose group was closed (pool dropped, broker gone or re-addressed): conn.run ends, the connection is closed
-       /\ IF Bug = "leakOnClosedGroup" /\ conns[c].gclosed
-            THEN conns' = [conns EXCEPT ![c].st = "leaked", ![c].cur = <<0, 0>>] /\ UNCHANGED pool
-            ELSE IF mine /\ ~conns[c].gclosed
+       /\ IF ~mine
+            THEN conns' = [conns EXCEPT ![c].st = "dead", ![c].cur = <<0, 0>>, ![c].failed = TRUE] /\ UNCHANGED pool
+            ELSE IF ~AtomicRelease
+            THEN conns' = [conns EXCEPT ![c].st = "releasing", ![c].cur = <<0, 0>>, ![c].wire = Tail(@)] /\ UNCHANGED pool
+            ELSE IF Bug = "leakOnClosedGroup" /\ conns[c].gclosed
+            THEN conns' = [conns EXCEPT ![c].st = "leaked", ![c].cur = <<0, 0>>, ![c].wire = Tail(@)] /\ UNCHANGED pool
+            ELSE IF ~conns[c].gclosed
             THEN /\ conns' = [conns EXCEPT ![c].st = "idle", ![c].cur = <<0, 0>>, ![c].wire = Tail(@)]
                  /\ pool' = [pool EXCEPT !.idle[conns[c].grp] = Append(@, c)]
-            ELSE /\ conns' = [conns EXCEPT ![c].st = "dead", ![c].cur = <<0, 0>>, ![c].failed = ~mine]
-                 /\ UNCHANGED pool
+            ELSE conns' = [conns EXCEPT ![c].st = "dead", ![c].cur = <<0, 0>>, ![c].wire = Tail(@)] /\ UNCHANGED pool
   /\ UNCHANGED <<cl, moves, snaps, sent, served, budget>>
+
+\* releaseConn: back to the idle stack of its group; a group that was closed meanwhile (pool dropped, broker gone or
+\* re-addressed) refuses the connection: conn.run ends and the connection is closed
+Release(c) ==
+  /\ conns[c].st = "releasing"
+  /\ IF Bug = "leakOnClosedGroup" /\ conns[c].gclosed
+       THEN conns' = [conns EXCEPT ![c].st = "leaked"] /\ UNCHANGED pool
+       ELSE IF ~conns[c].gclosed
+       THEN /\ conns' = [conns EXCEPT ![c].st = "idle"]
+            /\ pool' = [pool EXCEPT !.idle[conns[c].grp] = Append(@, c)]
+       ELSE /\ conns' = [conns EXCEPT ![c].st = "dead"]
+            /\ UNCHANGED pool
+  /\ UNCHANGED <<cl, moves, snaps, disc, rq, sent, served, budget>>
 
 \* the exchange failed (connection lost, broker gone, deadline of the request's context): reject, close
 ExchangeFail(c) ==
@@ -489,7 +514,7 @@ Update ==
                                                                    THEN m.addr[b] ELSE pool.gaddr[b]]]
             /\ conns' = [c \in Conns |->
                            IF conns[c].grp \in gone /\ conns[c].st = "idle" THEN [conns[c] EXCEPT !.st = "dead"]
-                           ELSE IF conns[c].grp \in gone /\ conns[c].st \in {"busy", "connecting"} THEN [conns[c] EXCEPT !.gclosed = TRUE]
+                           ELSE IF conns[c].grp \in gone /\ conns[c].st \in {"busy", "connecting", "releasing"} THEN [conns[c] EXCEPT !.gclosed = TRUE]
                            ELSE conns[c]]
        ELSE /\ pool' = [pool EXCEPT !.ready = TRUE, !.err = (Latest = pool.base)]
             /\ UNCHANGED <<snaps, conns>>
@@ -512,7 +537,7 @@ CloseIdle ==
   /\ budget' = [budget EXCEPT !.closeidle = @ + 1]
   /\ conns' = [c \in Conns |->
                  IF conns[c].st = "idle" THEN [conns[c] EXCEPT !.st = "dead"]
-                 ELSE IF conns[c].st \in {"busy", "connecting"} THEN [conns[c] EXCEPT !.gclosed = TRUE, !.cur = <<0, 0>>]
+                 ELSE IF conns[c].st \in {"busy", "connecting", "releasing"} THEN [conns[c] EXCEPT !.gclosed = TRUE, !.cur = <<0, 0>>]
                  ELSE conns[c]]
   /\ pool' = [NoPool EXCEPT !.base = Latest]
   /\ disc' = NoDisc
@@ -548,7 +573,7 @@ BrokerRemove(b, h) ==
                            !.leader = [tp \in TPs |-> IF tp \in moved THEN h ELSE cl.leader[tp]],
                            !.coord = IF @ = b THEN h ELSE @, !.txn = IF @ = b THEN h ELSE @, !.ctrlr = IF @ = b THEN h ELSE @]
        /\ moves' = moves \o [ i \in 1 .. Cardinality(moved) |-> [tp |-> SetToSeq(moved)[i], to |-> h, at |-> cl.ver + 1] ]
-  /\ conns' = [c \in Conns |-> IF conns[c].peer = b /\ conns[c].st \in {"idle", "busy"} THEN [conns[c] EXCEPT !.peerDown = TRUE] ELSE conns[c]]
+  /\ conns' = [c \in Conns |-> IF conns[c].peer = b /\ conns[c].st \in {"idle", "busy", "releasing"} THEN [conns[c] EXCEPT !.peerDown = TRUE] ELSE conns[c]]
   /\ Quiet
 
 TopicCreateWith(t, f) ==
@@ -578,8 +603,8 @@ Client ==
         \/ GrabState(r) \/ ServeFromCache(r) \/ AwaitReturn(r) \/ ReturnCancelled(r) \/ Wake(r) \/ RefreshDone(r)
         \/ \E how \in {"cancel", "deadline"} : Cancel(r, how)
         \/ AwaitRefresh(r)
-        \/ \E i \in 1 .. 4 : RouteFail(r, i) \/ RouteConnectRefused(r, i) \/ \E c \in Conns : RouteGrab(r, i, c) \/ RouteConnect(r, i, c)
-  \/ \E c \in Conns : \/ ConnectFail(c) \/ Serve(c) \/ Cut(c) \/ ExchangeOK(c) \/ ExchangeFail(c)
+        \/ \E i \in 1 .. 6 : RouteFail(r, i) \/ RouteConnectRefused(r, i) \/ \E c \in Conns : RouteGrab(r, i, c) \/ RouteConnect(r, i, c)
+  \/ \E c \in Conns : \/ ConnectFail(c) \/ Serve(c) \/ Cut(c) \/ ExchangeOK(c) \/ Release(c) \/ ExchangeFail(c)
                        \/ IdleExpire(c) \/ DiscGrab(c) \/ DiscConnect(c)
                        \/ \E b \in Brokers : ConnectDone(c, b)
   \/ Update \/ DiscConnectRefused \/ CloseIdle
@@ -589,7 +614,7 @@ Spec == Init /\ [][Next]_vars
 
 \* fairness for the liveness configs: everything the library does on its own, and the brokers answering
 Progress ==
-  \/ \E c \in Conns : Serve(c) \/ ExchangeOK(c) \/ ExchangeFail(c) \/ DiscGrab(c) \/ DiscConnect(c) \/ ConnectFail(c)
+  \/ \E c \in Conns : Serve(c) \/ ExchangeOK(c) \/ Release(c) \/ ExchangeFail(c) \/ DiscGrab(c) \/ DiscConnect(c) \/ ConnectFail(c)
                        \/ \E b \in Brokers : ConnectDone(c, b)
   \/ Update \/ DiscConnectRefused
 FairSpec == Spec /\ WF_vars(Progress /\ UNCHANGED cf)
@@ -605,7 +630,7 @@ C12_Routing ==
      IF s.cls = "any" THEN s.grp = 0 ELSE s.dest = want /\ s.grp = want
 \* ... and that snapshot was the latest one applied when the round trip grabbed the pool state
 C12_GrabIsLatest ==
-  [][\A r \in Reqs : (rq[r].pc = "wait" /\ rq'[r].pc = "run") => rq'[r].snap = Latest]_vars
+  [][\A r \in Reqs : (rq[r].pc = "wait" /\ rq'[r].pc = "run") => rq'[r].snap = (IF Latest = pool.base THEN 0 ELSE Latest)]_vars
 
 \* C12: ... at the address that broker advertises: the connection carrying the request was opened to the address
 \* given by the snapshot the call was routed with or by a later one applied before the request was served
@@ -666,7 +691,7 @@ C12_RefreshWithinTTL == [](<>(SnapVer = cl.ver))
 L_Terminates == \A r \in Reqs : [](rq[r].pc \in {"wait", "run"} => <>(rq[r].pc \in {"done", "refresh"}))
 
 TypeOK ==
-  /\ \A c \in Conns : conns[c].st \in {"none", "connecting", "idle", "busy", "dead", "leaked"}
+  /\ \A c \in Conns : conns[c].st \in {"none", "connecting", "idle", "busy", "releasing", "dead", "leaked"}
   /\ \A g \in Groups : \A k \in DOMAIN pool.idle[g] : conns[pool.idle[g][k]].st = "idle" /\ conns[pool.idle[g][k]].grp = g
   /\ \A c \in Conns : conns[c].st = "idle" => \E k \in DOMAIN pool.idle[conns[c].grp] : pool.idle[conns[c].grp][k] = c
 =============================================================================
